@@ -1,8 +1,8 @@
 #!/bin/sh
-# usage: sweep.sh <tier> <seed>...   -- runs every registered check once per seed, prints one line per run
+# usage: [CHECKS="C03 C07"] sweep.sh <tier> <seed>...   -- runs every registered check once per seed, prints one line per run
 TIER="$1"; shift
 for s in "$@"; do
-  for p in C01 C02 C03 C04 C05 C06 C07 C08 C09 C10 C11 C12 C13 C14 C15 C16 C17 C18 C19 C20; do
+  for p in ${CHECKS:-C01 C02 C03 C04 C05 C06 C07 C08 C09 C10 C11 C12 C13 C14 C15 C16 C17 C18 C19 C20}; do
     t0=$(date +%s)
     VERIF_SEED=$s ./check $p --tier $TIER > /tmp/sweep-$p-$s.log 2>&1; rc=$?
     t1=$(date +%s)
